@@ -583,6 +583,63 @@ def oracle(ctx: Ctx, Time, labels, src, conv):
                     if shape == "scalar" and np.ndim(getattr(ts, b).jd1) != 0:
                         ctx.violate(f"scalar-shape:{a}->{b}", "scalar in, non-scalar out", {"a": a, "b": b})
 
+    # (e) long arrays: an array of more than 2^16 epochs (a day of 1 Hz data has 86400), of a length that is no round number,
+    # converts element by element like the short array it is tiled from (routes through UTC <-> TAI, where the table is looked up)
+    for L in ([70001] if not ctx.thorough else [70001, 200003]):
+        reps = -(-L // n)
+        for a in SCALES:
+            if a not in src:
+                continue
+            b = "tai" if a == "utc" else "utc"
+            if (a, b) not in conv:
+                continue
+            a1, a2 = parts(src[a])
+            r1, r2 = parts(conv[(a, b)])
+            sel = np.tile(np.arange(n), reps)[:L]
+            try:
+                q1, q2 = parts(getattr(Time(a1[sel], val2=a2[sel], fmt="jd", scale=a), b))
+            except Exception as ex:
+                ctx.violate(f"long-array-raises:{a}->{b}", f"{type(ex).__name__}: {ex}", {"a": a, "b": b, "length": L})
+                continue
+            ctx.count("oracle-long-array-elements", L)
+            if len(q1) != L or not (np.array_equal(q1, r1[sel]) and np.array_equal(q2, r2[sel])):
+                bad = np.nonzero((q1 != r1[sel]) | (q2 != r2[sel]))[0] if len(q1) == L else np.array([0])
+                k = int(bad[0])
+                ctx.violate(f"alignment-long-array:{a}->{b}", f"in an array of {L} epochs, {len(bad)} elements (first: {k}) convert differently from the same "
+                            f"epochs in a short array ({float((frac(q1[k]) + frac(q2[k]) - frac(r1[sel[k]]) - frac(r2[sel[k]])) * 86400):.3e} s)",
+                            {"a": a, "b": b, "length": L, "element": k, "jd1": float(a1[sel[k]]), "jd2": float(a2[sel[k]])})
+
+    # (f) histories of single epochs: scalars of one boundary's neighbourhood converted one after the other, in changing scales
+    # (so that UTC-side and TAI-side lookups alternate) - each is the element of the array conversion, whatever came before
+    by_bound = {}
+    for i, (bnd, off) in enumerate(labels):
+        if abs(off) <= 40_000_000 or off >= DAY_US - 40_000_000:
+            by_bound.setdefault(bnd, []).append(i)
+    pools = [v for v in by_bound.values() if len(v) >= 30]
+    rng.shuffle(pools)
+    for pool in pools[:ctx.budget(12, 41)]:
+        hist = []
+        for _k in range(ctx.budget(60, 200)):
+            a = rng.choice(["utc", "tai", "utc", "tai", "gps", "tt", "tcg"])
+            b = rng.choice([x for x in (["tai", "utc", "gps"] if a != "tai" else ["utc", "utc", "tt"]) if x != a])
+            i = rng.choice(pool)
+            if a not in src or (a, b) not in conv:
+                continue
+            a1, a2 = parts(src[a])
+            r1, r2 = parts(conv[(a, b)])
+            hist.append([a, b, float(a1[i]), float(a2[i])])
+            try:
+                s1, s2 = parts(getattr(Time(float(a1[i]), val2=float(a2[i]), fmt="jd", scale=a), b))
+            except Exception as ex:
+                ctx.violate(f"scalar-raises:{a}->{b}", f"{type(ex).__name__}: {ex}", {"a": a, "b": b, "jd1": float(a1[i]), "jd2": float(a2[i])})
+                continue
+            ctx.count("oracle-scalar-history")
+            if s1[0] != r1[i] or s2[0] != r2[i]:
+                ctx.violate(f"scalar-history:{a}->{b}", f"a single epoch converts differently from the same epoch in an array, after {len(hist) - 1} other single "
+                            f"epochs ({float((frac(s1[0]) + frac(s2[0]) - frac(r1[i]) - frac(r2[i])) * 86400):.3e} s)",
+                            {"a": a, "b": b, "jd1": float(a1[i]), "jd2": float(a2[i]), "history": hist[-6:]})
+                break
+
     # every input format valid for the scale: build the epoch through the format's own value and check the defining
     # relations on what comes out (per object, against its own stored instant)
     FMTS = ["mjd", "jd", "datetime", "isot", "yyyydddsssss", "jyear", "gps_ws", "gps_seconds"]
@@ -649,6 +706,10 @@ def replay(payload):
     Time = _imp()
     c = payload.get("replay", {})
     print(json.dumps(payload, indent=1)[:1500])
+    if "history" in c:
+        for a_, b_, x1, x2 in c["history"]:
+            r_ = getattr(Time(x1, val2=x2, fmt="jd", scale=a_), b_)
+            print(f"history {a_}->{b_} ({x1!r}, {x2!r}): jd1={float(r_.jd1)!r} jd2={float(r_.jd2)!r}")
     if "array_jd1" in c and "a" in c and "b" in c:
         ta = Time(np.array(c["array_jd1"]), val2=np.array(c["array_jd2"]), fmt="jd", scale=c["a"])
         ra = getattr(ta, c["b"])
